@@ -30,6 +30,13 @@ RULE = ("the complete value-category tables (get / pair get / forward / forward_
         "the address of another object (all 27 answer maps), scripts over 26 operations through reference_wrapper / ref / cref / function_ref / "
         "inplace_function targets / invoke / bind_front / tuple / pair / swap / apply: every observer behind two bound wrappers for every answer "
         "map, every pair of binding operations + probes, every pair of observers, random scripts up to 24 operations. "
+        "Which constructor builds a user type the library constructs from forwarded arguments (op init): every construction site "
+        "(make_from_tuple from tuple& / && / const& / pair / array, tuple / pair element initialisation and converting constructors, "
+        "make_pair, make_tuple, tuple_cat, inplace_function constructor / copy / move / conversions / assignment, bind_front, not_fn, "
+        "the return conversion of invoke_r / inplace_function / function_ref) x every target type with an initializer_list constructor "
+        "next to the matching ordinary one (Buf, std::vector<size_t>, Conv, Tree with initializer_list<Tree>; control Plain) x 6 value pairs "
+        "+ 600 random (thorough 20000); the language rule (op initlang) for every form x class of the model's table; 43 compile-only probes "
+        "(extra_checks, props/C20/wf_probes.py) of the combinations whose list form is ill-formed. "
         "non-trivial = distinct case line whose impl leg starts "
         "with ok / ill")
 
@@ -38,7 +45,8 @@ TRUSTED_BASE = ["reference leg: libstdc++ 12 std::pair/tuple/function/invoke/bin
                 "the harness' instrumented callables (forwarding-reference operator() on all four ref-qualifiers) report "
                 "categories through template deduction, i.e. the C++ language",
                 "op lang: g++ 12 is the reference for the language rules (binding, static_cast, deduction, overload choice) the "
-                "model's value-category part is written with"]
+                "model's value-category part is written with; op initlang / the compile-only probes: g++ 12 (with -Werror=narrowing for "
+                "the probes) is the reference for which constructor an initialiser form selects and whether it is well-formed"]
 ASSUMPTIONS = ["forwarding is largely the C++ language (overload resolution, template deduction, reference collapsing): "
                "the model captures the library's choices (declared return types, etl::move / etl::forward / static_cast / plain use) "
                "and evaluates them with language rules that are compared with the compiler on every run (op lang), not derived from "
@@ -501,6 +509,44 @@ def gen_amp(tier, rng):
     return out
 
 
+# ---- op init: which constructor builds a user type constructed from forwarded arguments (c20_init.inc / ModelInit.v) -------
+# init <site> <scenario> <a> <b>; site / scenario codes: ModelInit.site_of_code / scen_cls
+INIT_TWO_ARG_SITES = (0, 1, 2, 3, 4)
+INIT_ONE_ARG_SITES = (0, 1, 2, 5, 7, 9, 10, 23, 24, 25)
+INIT_SELF_SITES = (0, 1, 2, 5, 6, 7, 8, 11, 12, 13, 14, 15, 16, 17, 18, 19, 20, 21, 22)
+
+
+def init_sites(scen):
+    return INIT_TWO_ARG_SITES if scen in (0, 1, 2) else INIT_ONE_ARG_SITES if scen in (3, 4) else INIT_SELF_SITES
+
+
+def gen_init(tier, rng):
+    out = []
+    quick = tier == "quick"
+    # every site x scenario that exists as code, a few argument values each (count 0 / 1 / 2 / larger; value equal / unequal
+    # to the count: a list constructor taking {count, value} and the (count, value) constructor then differ in size AND front)
+    for scen in range(6):
+        for site in init_sites(scen):
+            for (a, b) in ((3, 7), (2, 2), (0, 5), (1, 1), (8, 0), (-4, 13)):
+                out.append(f"init {site} {scen} {a} {b}")
+    # combinations that do not exist (skipped by every leg) and stray codes
+    for scen in range(7):
+        for site in range(27):
+            if scen > 5 or site not in init_sites(scen):
+                out.append(f"init {site} {scen} 3 7")
+    out += ["init -1 0 3 7", "init 0 -1 3 7", "init 0 0 2000000 7"]
+    # the language rule itself (ModelInit.resolve): every form x every class / argument list of the model's scenario table
+    for form in range(5):
+        for scen in range(12):
+            for (a, b) in ((3, 7), (2, 2), (0, 5), (-4, 13)):
+                out.append(f"initlang {form} {scen} {a} {b}")
+    for _ in range(600 if quick else 20000):
+        scen = rng.randrange(6)
+        site = rng.choice(init_sites(scen))
+        out.append("init %d %d %d %d" % (site, scen, rng.randint(-1000, 1000), rng.randint(-2000, 2000)))
+    return out
+
+
 def gen(tier, rng):
     if tier == "search":
         tier = "thorough"
@@ -511,7 +557,66 @@ def gen(tier, rng):
     out += gen_ipf(tier, rng)
     out += gen_ipf_mixed(tier, rng)
     out += gen_amp(tier, rng)
+    out += gen_init(tier, rng)
     return out
+
+
+def extra_checks(ctx):
+    """compile-only probes (props/C20/wf_probes.py): the site x scenario combinations whose brace / copy-list form would be
+    ILL-FORMED (narrowing, explicit copy constructor) must compile, as they do with libstdc++; expected verdict = the
+    extracted model / spec through the driver (op initwf)"""
+    import hashlib
+    import json
+    import subprocess
+    import sys
+    from pathlib import Path
+    from vlib import engine
+    here = Path(__file__).parent
+    sys.path.insert(0, str(here))
+    import wf_probes as wf
+    items = []
+    drv = engine.build_driver(ID)
+    work = engine.HBUILD / ID / "wf"
+    work.mkdir(parents=True, exist_ok=True)
+    vers = subprocess.run(["g++", "--version"], capture_output=True, text=True).stdout.split("\n")[0]
+    key = hashlib.sha256((engine.include_hash() + wf.source_hash() + vers + "v1").encode()).hexdigest()[:24]
+    cache_path = work / "wf-cache.json"
+    try:
+        cache = json.loads(cache_path.read_text())
+    except Exception:
+        cache = {}
+    if cache.get("key") != key:
+        cache = {"key": key, "results": wf.run(str(engine.REPO / "include"), str(work), jobs=4)}
+        cache_path.write_text(json.dumps(cache))
+    results = cache["results"]
+    lines_in = ["initwf %d %d 0 0" % (r["site"], r["scenario"]) for r in results]
+    _, lines, _err = engine.run_bin(drv, lines_in)
+    bad = []
+    for i, r in enumerate(results):
+        m, sp = engine.split_legs(lines[i]) if i < len(lines) else ("missing", "na")
+        r = dict(r, model=m, spec=sp)
+        if m not in ("wf", "ill"):
+            print(f"MACHINERY-WARNING property={ID}: compile-only probe without a usable expectation: {lines_in[i]} -> {m}")
+            continue
+        if sp != "na" and sp != r["std"]:
+            print(f"MACHINERY-WARNING property={ID}: Coq spec and libstdc++ disagree on {lines_in[i]}: spec {sp}, std {r['std']}")
+        prop_fail = (sp != "na" and r["etl"] != sp) or (sp != "na" and r["etl"] != r["std"])
+        if r["etl"] != m or prop_fail:
+            bad.append((not prop_fail, len(r["statement"]), i, r, prop_fail))
+    for (_, _, i, r, prop_fail) in sorted(bad)[:3]:
+        items.append({"kind": "violation", "found_input": prop_fail,
+                      "payload": {"property": ID, "kind": "compile-only probe: a construction site applied to a class whose list-initialisation is ill-formed",
+                                  "input": lines_in[i], "statement": r["statement"], "impl": r["etl"], "reference": r["std"],
+                                  "model": r["model"], "spec": r["spec"], "diagnostic": r["diag"],
+                                  "disagreeing_probes": len(bad),
+                                  "meaning": "wf = the statement compiles (g++ -std=c++20 -fsyntax-only) against etl (impl) / libstdc++ (reference); "
+                                             "site and scenario codes: coq/C20/ModelInit.v site_of_code / scen_cls"}})
+    ctx.evidence = dict(getattr(ctx, "evidence", {}), compile_only_probes={
+        "probes": len(results), "compilations": 2 * len(results), "disagreements": len(bad),
+        "expected_well_formed": sum(1 for r in results if r["std"] == "wf")})
+    items.append({"kind": "note", "text": f"compile-only probes: {len(results)} site x scenario statements compiled against etl and libstdc++, "
+                                          f"{len(bad)} disagreements with the model / reference"})
+    return items
 
 
 def nontrivial(case, impl):
